@@ -10,6 +10,7 @@
 //!     of `state`/`compute`/`tree` with the model.
 #[path = "../../c15/src/gcno.rs"]
 mod gcno;
+mod multiblock;
 use corrlib::*;
 use gcno::*;
 use serde_json::{json, Value};
@@ -1479,6 +1480,7 @@ pub fn run(rep: &mut Report) {
         eprintln!("harness panicked: {}", p);
         std::process::exit(2);
     }
+    multiblock::run(rep);
 }
 
 pub fn replay(rep: &mut Report, case: &Value) {
@@ -1572,6 +1574,7 @@ pub fn replay(rep: &mut Report, case: &Value) {
                 }
             }
         }
+        op if op.starts_with("mb.") => multiblock::replay(rep, case),
         _ => rep.notes.push("corpus cases are re-run by the normal check".into()),
     }
 }
